@@ -171,9 +171,8 @@ def check_case(case) -> list[Fail]:
                 fails.append(Fail("names", "module-replaced", f"{norm(full)} is {gmod!r}, not a module\n{src_text()}"))
                 continue
             cmod = cview[path]
-            own_children = {G.base_name(c) for c in G.children(case, path)}
             s = sim[path]
-            tolerated = {n for n in s["uncertain"] if n not in s["ns"] and n not in own_children}
+            tolerated = G.tolerated_names(case, sim, path)
             gnames = {n for n in gmod.members if "/" not in n}
             cnames = set(cmod["names"])
             for n in sorted((cnames - gnames) - tolerated):
@@ -184,6 +183,7 @@ def check_case(case) -> list[Fail]:
                         f"missing[{how}]",
                         f"module {norm(full)}: CPython binds {norm(n)!r} (-> {norm(sorted(cmod['names'][n]['paths']))}), "
                         f"Griffe has no such member; members={norm(sorted(gmod.members))}\n{src_text()}",
+                        {"module": path, "name": "$TOP" if n == top else n},
                     )
                 )
             for n in sorted((gnames - cnames) - tolerated):
@@ -194,6 +194,7 @@ def check_case(case) -> list[Fail]:
                         f"extra[{how}]",
                         f"module {norm(full)}: Griffe shows member {norm(n)!r} ({gmod.members[n]!r}) that CPython does not bind; "
                         f"runtime names={norm(sorted(cnames))}\n{src_text()}",
+                        {"module": path, "name": "$TOP" if n == top else n},
                     )
                 )
             # ---- targets
@@ -211,6 +212,7 @@ def check_case(case) -> list[Fail]:
                                 f"unresolved:{type(exc).__name__}[{how}]",
                                 f"{norm(full)}.{norm(n)}: alias to {norm(gm.target_path)!r} does not resolve ({type(exc).__name__}); "
                                 f"CPython: {norm(sorted(cobj['paths']))}\n{src_text()}",
+                                {"module": path, "name": "$TOP" if n == top else n},
                             )
                         )
                         continue
@@ -224,6 +226,7 @@ def check_case(case) -> list[Fail]:
                             f"wrong-object[{how}]",
                             f"{norm(full)}.{norm(n)}: Griffe resolves to {gkind} {norm(ft.path)}, CPython's object is "
                             f"{cobj['kind']} {norm(sorted(cobj['paths']))}\n{src_text()}",
+                            {"module": path, "name": "$TOP" if n == top else n},
                         )
                     )
                     continue
@@ -236,6 +239,7 @@ def check_case(case) -> list[Fail]:
                                 "target",
                                 f"wrong-definition[{how}]",
                                 f"{norm(full)}.{norm(n)}: Griffe's target has docstring {norm(gdoc)!r}, CPython's object {norm(cobj['doc'])!r}\n{src_text()}",
+                                {"module": path, "name": "$TOP" if n == top else n},
                             )
                         )
                 elif "tag" in cobj:
@@ -249,6 +253,7 @@ def check_case(case) -> list[Fail]:
                                 "target",
                                 f"wrong-definition[{how}]",
                                 f"{norm(full)}.{norm(n)}: Griffe's target has value {norm(gval)!r}, CPython's object is {norm(cobj['tag'])!r}\n{src_text()}",
+                                {"module": path, "name": "$TOP" if n == top else n},
                             )
                         )
                 if gm.is_alias:
@@ -265,7 +270,7 @@ def check_case(case) -> list[Fail]:
                 unexpanded = [e for e in gexp if not isinstance(e, str)]
                 if unexpanded:
                     fails.append(
-                        Fail("exports", "unexpanded", f"{norm(full)}: Module.exports still holds names {norm(unexpanded)}; runtime __all__ = {sorted(cexp)}\n{src_text()}")
+                        Fail("exports", "unexpanded", f"{norm(full)}: Module.exports still holds names {norm(unexpanded)}; runtime __all__ = {sorted(cexp)}\n{src_text()}", {"module": path})
                     )
                 elif set(gexp) != cexp:
                     fails.append(
@@ -273,6 +278,7 @@ def check_case(case) -> list[Fail]:
                             "exports",
                             "different",
                             f"{norm(full)}: Module.exports = {sorted(set(gexp))}, runtime __all__ = {sorted(cexp)}\n{src_text()}",
+                            {"module": path},
                         )
                     )
         return fails
@@ -338,9 +344,65 @@ def _alias_presents(alias, ft, cvalue, norm, src_text) -> list[Fail]:
     return fails
 
 
+# ------------------------------------------------------------------------------------------------ known findings
+def _known_stale_alias(case, fail: Fail) -> bool:
+    """stale-alias-after-wildcard-override: the failing name's import chain passes through a module-level name that is
+    bound by an explicit import and re-bound by a later wildcard import of the same module (`tainted`). Only the
+    `target` clause (wrong object / wrong definition) can be attributed; the re-binding module itself must be right."""
+    if fail.clause != "target" or not fail.kind.startswith(("wrong-object", "wrong-definition")):
+        return False
+    d = fail.detail or {}
+    sim = G.simulate(case)
+    info = sim.get(d.get("module"), {"ns": {}})["ns"].get(d.get("name"))
+    if not info:
+        return False
+    return any(n in sim[m]["tainted"] for m, n in info["chain"])
+
+
+def _known_dot_import(case, fail: Fail) -> bool:
+    """dot-import-submodule-not-exposed: a name is missing in a module that receives it through a wildcard chain
+    starting at a package whose __init__ binds it with `from . import <submodule>`."""
+    if fail.clause != "names" or not fail.kind.startswith("missing"):
+        return False
+    d = fail.detail or {}
+    sim = G.simulate(case)
+    info = sim.get(d.get("module"), {"ns": {}})["ns"].get(d.get("name"))
+    if not info or info["how"] != "wild":
+        return False
+    return any(n in sim[m]["dot_imported"] for m, n in info["chain"])
+
+
+def _known_same_module(case, fail: Fail) -> bool:
+    """wildcard-rebinding-same-module-skipped: the failing name (or a link of its import chain) is a name that a wildcard
+    import re-binds to the module it was already bound to in that module."""
+    if fail.clause != "target" or not fail.kind.startswith("wrong-object"):
+        return False
+    d = fail.detail or {}
+    sim = G.simulate(case)
+    mod = sim.get(d.get("module"))
+    if not mod:
+        return False
+    if d.get("name") in mod["same_module_rebound"]:
+        return True
+    info = mod["ns"].get(d.get("name"))
+    return bool(info) and any(n in sim[m]["same_module_rebound"] for m, n in info["chain"])
+
+
+KNOWN = {
+    "stale-alias-after-wildcard-override": _known_stale_alias,
+    "wildcard-rebinding-same-module-skipped": _known_same_module,
+    "dot-import-submodule-not-exposed": _known_dot_import,
+}
+
+
 # ------------------------------------------------------------------------------------------------ search
 def _options(ctx) -> dict:
-    return {"max_mods": 6, "max_stmts": ctx.scale(6, 8)}
+    return {
+        "max_mods": 6,
+        "max_stmts": ctx.scale(6, 8),
+        "avoid": frozenset(k for k in G.KNOWN_STEERING if k in ctx.known),
+        "on_excluded": ctx.excluded,
+    }
 
 
 def strategy(ctx):
